@@ -87,15 +87,22 @@ pub struct SimFlag {
     pub polls: Cell<u64>,
     pub polls_after_fail: Cell<u64>,
     pub log: bool,
+    /// the payload of the error this flag signals with (default: the poll's own label)
+    pub payload: Option<&'static str>,
 }
 
 impl SimFlag {
+    pub fn with_payload(mut self, p: Option<&'static str>) -> SimFlag {
+        self.payload = p;
+        self
+    }
     pub fn counting() -> SimFlag {
         SimFlag {
             fail_from: None,
             polls: Cell::new(0),
             polls_after_fail: Cell::new(0),
             log: true,
+            payload: None,
         }
     }
     pub fn failing_from(k: u64) -> SimFlag {
@@ -104,6 +111,7 @@ impl SimFlag {
             polls: Cell::new(0),
             polls_after_fail: Cell::new(0),
             log: true,
+            payload: None,
         }
     }
 }
@@ -121,7 +129,7 @@ impl CancellationFlag for SimFlag {
                 if n > k {
                     self.polls_after_fail.set(self.polls_after_fail.get() + 1);
                 }
-                Err(CancellationError(at))
+                Err(CancellationError(self.payload.unwrap_or(at)))
             }
             _ => Ok(()),
         }
